@@ -264,6 +264,11 @@ class Interp:
             except OutOfReach:
                 return False
             return sv.t == o.t
+        if isinstance(a, SymPySet) and isinstance(b, SymPySet):
+            try:
+                return set(a) == set(b)
+            except TypeError:
+                raise OutOfReach("== on sets with symbolic elements")
         if isinstance(a, (list, tuple)) and isinstance(b, (list, tuple)) and type(a) is type(b):
             if len(a) != len(b):
                 return False
@@ -478,6 +483,10 @@ class Interp:
         """Concatenate str pieces (concrete strs, PartV, DName, z3 strings)."""
         if all(isinstance(p, str) for p in pieces):
             return "".join(pieces)
+        if any(isinstance(p, (PartV, DName)) for p in pieces) and \
+                not all(isinstance(p, (str, PartV, DName)) for p in pieces):
+            # a message that mixes names with other values (only ever used as text): opaque string
+            return SV(self.eng.fresh("msg", z3.StringSort()))
         if any(isinstance(p, (PartV, DName)) for p in pieces):
             # dotted-name construction: pieces are parts / names / literal text made of dots and parts
             parts = []
